@@ -425,6 +425,13 @@ Module PinnedSeq.
   Definition apply_op (o : op) (s : sess) : res (ret * sess) := run_solo 12 (Pinned.init_pc o) s.
 End PinnedSeq.
 
+(* ---- histories: interleaved execution of the same [step] (Model/JobSched.v) --------------- *)
+Definition hist : Type := list (ev op).
+Definition cfg : Type := config sess pc.          (* thread pool (program counters), shared state *)
+Definition cfg0 : cfg := ([], s0).
+Definition run_from (c : cfg) (es : hist) : res cfg := run_sched step init_pc es c.
+Definition run (es : hist) : res cfg := run_from cfg0 es.
+
 (* ---- correspondence cases ----------------------------------------------------------- *)
 (* what the harness observes of one job: Status, done (0 open / 1 closed / 2 nil), result tag,
    Frags, len(Error) > 0 *)
@@ -455,8 +462,48 @@ Definition ret_eqb (a b : ret) : bool :=
    observable state afterwards (every job created so far, the table sorted by number) *)
 Inductive ostep := OStep (o : op) (r : res ret) (js : list jobobs) (t : list (Z * nat)).
 
+(* Deterministic interleavings.  The implementation can be parked (through the Session logger,
+   see harness/overlay/c2--c14.go) inside handle between the read-locked lookup and the
+   write-locked finish, and inside Task between the duplicate check and the insert.  A case is a
+   list of SEGMENTS: [SSpawn o k] starts a new thread with operation o and lets it take k atomic
+   steps, [SResume t k] lets thread t take k more (a thread that has returned, or that is blocked in
+   Wait, stutters).  After every segment the harness observed whether the thread has returned
+   (and what) or is parked / blocked, every job and the table. *)
+Inductive seg := SSpawn (o : op) (k : nat) | SResume (t : nat) (k : nat).
+Inductive tobs := TParked | TRet (r : ret).
+Inductive cstep := CStep (g : seg) (ob : tobs) (js : list jobobs) (t : list (Z * nat)).
+
 Inductive case :=
-| CSeq (steps : list ostep).
+| CSeq (steps : list ostep)
+| CSched (steps : list cstep).
+
+Definition seg_events (g : seg) (c : cfg) : nat * hist :=
+  match g with
+  | SSpawn o k => (length (fst c), Spawn o :: repeat (Run (length (fst c))) k)
+  | SResume t k => (t, repeat (Run t) k)
+  end.
+
+Definition tobs_ok (p : option pc) (ob : tobs) : bool :=
+  match p with
+  | Some (PDone r) => match ob with TRet y => ret_eqb r y | TParked => false end
+  | Some _ => match ob with TParked => true | TRet _ => false end
+  | None => false
+  end.
+
+Fixpoint check_sched (steps : list cstep) (c : cfg) : bool :=
+  match steps with
+  | [] => true
+  | CStep g ob js t :: rest =>
+      let '(tid, es) := seg_events g c in
+      match run_from c es with
+      | Ok c1 =>
+          tobs_ok (nth_error (fst c1) tid) ob
+          && list_eqb jobobs_eqb (map obs_job (jobs (snd c1))) js
+          && list_eqb entry_eqb (sort_table (table (snd c1))) t
+          && check_sched rest c1
+      | _ => false
+      end
+  end.
 
 Fixpoint check_steps (apply : op -> sess -> res (ret * sess)) (steps : list ostep) (s : sess) : bool :=
   match steps with
@@ -474,21 +521,19 @@ Fixpoint check_steps (apply : op -> sess -> res (ret * sess)) (steps : list oste
 Definition check (c : case) : bool :=
   match c with
   | CSeq steps => check_steps apply_op steps s0
+  | CSched steps => check_sched steps cfg0
   end.
 Definition check_pinned (c : case) : bool :=
   match c with
   | CSeq steps => check_steps PinnedSeq.apply_op steps s0
+  | CSched _ => true
   end.
 
 (* ==================================================================================== *)
 (* Histories: the interleaving semantics of the SAME [step] (Model/JobSched.v), and the  *)
 (* vocabulary in which Props/C14.v states the property.                                  *)
 (* ==================================================================================== *)
-Definition hist : Type := list (ev op).
-Definition cfg : Type := config sess pc.          (* thread pool (program counters), shared state *)
-Definition cfg0 : cfg := ([], s0).
-Definition run_from (c : cfg) (es : hist) : res cfg := run_sched step init_pc es c.
-Definition run (es : hist) : res cfg := run_from cfg0 es.
+(* [hist], [cfg], [cfg0], [run_from], [run] are defined above (before the correspondence cases). *)
 
 (* a job (named by its handle) is pending: its done channel is open; finished: done is nil *)
 Definition pending (s : sess) (h : nat) : Prop := exists j, getj s h = Some j /\ jdone j = Open.
